@@ -219,7 +219,10 @@ def object_case(c):
     from pygyro.advection.advection import VParallelAdvection
     from pygyro.initialisation import initialiser_funcs as IF
     rng = random.Random(c['seed'])
-    bs, eta = ac.real_spaces(c['npts'], c['degrees'], uniform=c['uniform'], rng=rng)
+    dom = None
+    if c.get('vdom'):
+        dom = [[0.1, 14.5], [0.0, 2 * math.pi], [0.0, 1506.759067], list(c['vdom'])]
+    bs, eta = ac.real_spaces(c['npts'], c['degrees'], uniform=c['uniform'], rng=rng, dom=dom)
     const = ac.real_constants()
     obj = VParallelAdvection(eta, bs[3], const, edge=c['edge'])
     pts = eta[3]
@@ -256,12 +259,18 @@ def gen_object_cases(chk):
     rng = random.Random(chk.seed * 104729 + 11)
     big = chk.tier == 'thorough'
     cases = []
-    for k in range(150 if big else 12):
+    for k in range(150 if big else 36):
         degv = 3 if k % 2 == 0 else rng.choice([1, 2, 4, 5])
         uni = [True, True, True, not (k % 4 == 3)]
         nv = rng.randint(max(6, degv + 3), 16)
+        # v domains: the symmetric one of the setups, and off-centre ones with ends that are not binary fractions
+        # (a boundary test written in another but mathematically equal form rounds differently there)
+        vdom = None
+        if k % 4 != 0:
+            a = round(rng.uniform(-9.0, 5.0), 2)
+            vdom = [a, round(a + rng.uniform(1.5, 9.0), 2)]
         cases.append({'seed': chk.seed * 37 + k, 'npts': [5, 7, 7, nv], 'degrees': [3, 3, 3, degv], 'uniform': uni,
-                      'edge': ['fEq', 'null', 'periodic'][k % 3], 'nruns': 14 if big else 7, 'k': k})
+                      'edge': ['fEq', 'null', 'periodic'][k % 3], 'nruns': 14 if big else 7, 'k': k, 'vdom': vdom})
     return cases
 
 
@@ -279,7 +288,7 @@ def object_lines(c, o):
 def judge_object(chk, c, o, answers):
     vMin, vMax = o['pts'][0], o['pts'][-1]
     w = vMax - vMin
-    desc = {'npts_v': len(o['pts']), 'degree': o['deg'], 'cubic_uniform': o['cu'], 'edge': c['edge'], 'uniform': c['uniform'][3]}
+    desc = {'vdom': c.get('vdom'), 'npts_v': len(o['pts']), 'degree': o['deg'], 'cubic_uniform': o['cu'], 'edge': c['edge'], 'uniform': c['uniform'][3]}
     for rn, ans in zip(o['runs'], answers):
         st = 'step-float/%s/%s/%s' % ('cu' if o['cu'] else 'nu', c['edge'], rn['cls'])
         chk.count(('vpf', c['k'], rn['cls'], rn['c']), nontrivial=(rn['cls'] != 'zero'), stratum=st,
